@@ -19,7 +19,7 @@ CONFIG = {
                   "nesting alone, for strings / row sets / node sets / graph-name sets / lists of ANY size: Term::cmp/eq/hash "
                   "(equal to C02's termCmp/termEq/termHash), c14n nq, N-Triples write_term~write_triple, cmp_bindings_with "
                   "under any sort (order_by_depth_bounded), bgp_rec, jsonify (<= 2), populate_list~convert_rdf_object, "
-                  "select~operators for any number of named graphs, find_subject (log2), and the prettifier "
+                  "select~operators~check_exists (query operators, expressions and EXISTS patterns) for any number of named graphs, find_subject (log2), and the prettifier "
                   "(pretty_depth_bounded: <= 1 + 6 * nesting of quoted triples, collections, annotations AND anonymous "
                   "blank nodes). (3) table_verdict / table_status / all_bounded lift this to the harness families of every "
                   "size through those general theorems. The prettifier without a cap on [ ] nesting is NOT bounded by the "
@@ -57,7 +57,7 @@ CONFIG = {
         "term_eq_fst", "term_eq_depth_bounded", "term_hash_fst", "term_hash_depth_bounded", "nq_depth_bounded",
         "nt_write_term_depth_bounded", "find_subject_depth_bounded", "bgp_rec_depth_bounded",
         "cmp_bindings_depth_bounded", "order_by_depth_bounded", "jsonify_depth_bounded",
-        "into_json_depth_bounded", "populate_convert_depth_bounded", "select_depth_bounded",
+        "into_json_depth_bounded", "populate_convert_depth_bounded", "select_depth_bounded", "check_exists_depth_bounded",
         "pretty_depth_bounded", "pretty_full_refuted", "pretty_depth_bounded_partial", "pretty_chain_status",
         "pretty_repaired_depth_bounded", "pretty_repaired_props_bounded", "pretty_repaired_full", "cut_chain",
         "pretty_cap_present", "pretty_chain_bounded",
